@@ -18,6 +18,8 @@
 #define A(x) ((uint64_t) (uintptr_t) (x))
 #define CALLN(w, f, ...) tcalln(w, (void *) (f), (int) (sizeof((uint64_t[]){ __VA_ARGS__ }) / 8), (uint64_t[]){ __VA_ARGS__ })
 #define NB 34
+#define NPB 5 /* lane-pattern profiles: base lengths */
+#define NPD 4 /* ... deltas of the odd buffer */
 #define MAXL 9000
 static uint32_t HI_N, HI_1; /* upper length bound of the N-buffer profiles / of the single-buffer sweeps (set from the tier) */
 static region_t RIN[NB], ROUT[NB], RIV[NB], RTAG[NB], RAAD;
@@ -117,8 +119,21 @@ out_canary_ok(int i, size_t n)
 
 /* length profiles for N-buffer calls */
 static void
-profile(int prof, int n, uint32_t *len, uint32_t lo, uint32_t hi)
+profile_u(int prof, int n, uint32_t *len, uint32_t lo, uint32_t hi, uint32_t unit)
 {
+        if (prof >= 5) { /* lane patterns: all buffers of one base length except position p (see NPROF) */
+                static const uint32_t PB[NPB] = { 16, 32, 64, 128, 256 };
+                static const int PD[NPD] = { 1, 16, -1, 67 };
+                int k = prof - 5;
+                const int p = k % n;
+                k /= n;
+                const int di = k % NPD, bi = k / NPD;
+                for (int i = 0; i < n; i++)
+                        len[i] = PB[bi] * unit;
+                len[p] = (uint32_t) ((int) (PB[bi] * unit) + (PD[di] == 1 || PD[di] == -1 ? PD[di] : PD[di] * (int) unit));
+                (void) lo;
+                return;
+        }
         for (int i = 0; i < n; i++) {
                 uint32_t span = hi - lo;
                 switch (prof) {
@@ -130,6 +145,7 @@ profile(int prof, int n, uint32_t *len, uint32_t lo, uint32_t hi)
                 }
         }
 }
+#define NPROF(n) (5 + NPB * NPD * (n))
 static const int NS[] = { 1, 2, 3, 4, 5, 7, 8, 9, 15, 16, 17, 18, 33 };
 #define NNS 13
 
@@ -141,12 +157,12 @@ t_zuc(void)
 {
         uint8_t exp[MAXL];
         for (int q = 0; q < NNS; q++)
-                for (int prof = 0; prof < 5; prof++) {
+                for (int prof = 0; prof < NPROF(NS[q]); prof++) {
                         int n = NS[q];
                         uint32_t len[NB];
                         const void *keys[NB], *ivs[NB], *ins[NB];
                         void *outs[NB];
-                        profile(prof, n, len, 1, HI_N);
+                        profile_u(prof, n, len, 1, HI_N, 1);
                         for (int i = 0; i < n; i++) {
                                 keys[i] = KEY[i];
                                 uint8_t *iv = place(RIV[i], 16);
@@ -160,7 +176,7 @@ t_zuc(void)
                                 ref_zuc_eea3(KEY[i], ivs[i], ins[i], exp, len[i]);
                                 n_eval++;
                                 if (memcmp(outs[i], exp, len[i]) || !out_canary_ok(i, len[i]))
-                                        viol("zuc-eea3-n-buffer", "output-differs", "N-buffer result differs from the reference (x = n, y = buffer)", n * 10 + prof, i);
+                                        viol("zuc-eea3-n-buffer", "output-differs", "N-buffer result differs from the reference (x = n, y = buffer)", n * 1000 + prof, i);
                         }
                         if (n == 4) {
                                 for (int i = 0; i < 4; i++)
@@ -184,7 +200,7 @@ t_zuc(void)
                         /* EIA3: bit lengths */
                         uint32_t bl[NB];
                         uint32_t *tags[NB];
-                        profile(prof, n, bl, 1, 2100);
+                        profile_u(prof, n, bl, 1, 2100, 8);
                         for (int i = 0; i < n; i++) {
                                 ins[i] = inbuf(i, (bl[i] + 7) / 8, 1100 + (uint64_t) i);
                                 tags[i] = (uint32_t *) (void *) place(RTAG[i], 4);
@@ -196,7 +212,7 @@ t_zuc(void)
                                 ref_zuc_eia3(KEY[i], ivs[i], ins[i], bl[i], et);
                                 n_eval++;
                                 if (memcmp(tags[i], et, 4))
-                                        viol("zuc-eia3-n-buffer", "tag-differs", "N-buffer MAC differs from the reference (x = n*10+profile, y = buffer)", n * 10 + prof, i);
+                                        viol("zuc-eia3-n-buffer", "tag-differs", "N-buffer MAC differs from the reference (x = n*1000+profile, y = buffer)", n * 1000 + prof, i);
                         }
                         if (n == 1) {
                                 memset(tags[0], 0, 4);
@@ -224,7 +240,7 @@ t_snow3g(void)
                 ks[i] = &sched[i];
         }
         for (int q = 0; q < NNS; q++)
-                for (int prof = 0; prof < 5; prof++) {
+                for (int prof = 0; prof < NPROF(NS[q]); prof++) {
                         int n = NS[q];
                         uint32_t len[NB];
                         const void *ivs[NB], *ins[NB];
@@ -249,7 +265,7 @@ t_snow3g(void)
                                                 viol("snow3g-f8-n-buffer", "write-on-failure", "failed call wrote to an output buffer", n, i);
                                 continue;
                         }
-                        profile(prof, n, len, 1, HI_N);
+                        profile_u(prof, n, len, 1, HI_N, 1);
                         for (int i = 0; i < n; i++) {
                                 uint8_t *iv = place(RIV[i], 16);
                                 fill_rand(iv, 16, 1900 + (uint64_t) i);
@@ -263,7 +279,7 @@ t_snow3g(void)
                                 ref_snow3g_uea2(KEY[0], ivs[i], ins[i], exp, (uint64_t) len[i] * 8);
                                 n_eval++;
                                 if (memcmp(outs[i], exp, len[i]) || !out_canary_ok(i, len[i]))
-                                        viol("snow3g-f8-n-buffer", "output-differs", "N-buffer result differs from the reference (x = n*10+profile, y = buffer)", n * 10 + prof, i);
+                                        viol("snow3g-f8-n-buffer", "output-differs", "N-buffer result differs from the reference (x = n*1000+profile, y = buffer)", n * 1000 + prof, i);
                         }
                         /* multi key N-buffer */
                         for (int i = 0; i < n; i++)
@@ -273,7 +289,7 @@ t_snow3g(void)
                                 ref_snow3g_uea2(KEY[i], ivs[i], ins[i], exp, (uint64_t) len[i] * 8);
                                 n_eval++;
                                 if (memcmp(outs[i], exp, len[i]) || !out_canary_ok(i, len[i]))
-                                        viol("snow3g-f8-n-buffer-multikey", "output-differs", "multi-key N-buffer result differs from the reference", n * 10 + prof, i);
+                                        viol("snow3g-f8-n-buffer-multikey", "output-differs", "multi-key N-buffer result differs from the reference", n * 1000 + prof, i);
                         }
                         if (n == 8) {
                                 for (int i = 0; i < 8; i++)
@@ -354,7 +370,7 @@ t_kasumi(void)
         IMB_KASUMI_INIT_F8_KEY_SCHED(m, KEY[0], &k8);
         IMB_KASUMI_INIT_F9_KEY_SCHED(m, KEY[0], &k9);
         for (int q = 0; q < NNS; q++)
-                for (int prof = 0; prof < 5; prof++) {
+                for (int prof = 0; prof < NPROF(NS[q]); prof++) {
                         int n = NS[q];
                         if (n > 16)
                                 continue; /* KASUMI N-buffer is documented for up to 16 buffers */
@@ -363,7 +379,7 @@ t_kasumi(void)
                         const void *ins[NB];
                         void *outs[NB];
                         uint8_t ivb[NB][8];
-                        profile(prof, n, len, 1, HI_N);
+                        profile_u(prof, n, len, 1, HI_N, 1);
                         for (int i = 0; i < n; i++) {
                                 fill_rand(ivb[i], 8, 2900 + (uint64_t) i);
                                 memcpy(&ivs[i], ivb[i], 8);
@@ -375,7 +391,7 @@ t_kasumi(void)
                                 ref_kasumi_f8(KEY[0], ivb[i], ins[i], exp, (uint64_t) len[i] * 8);
                                 n_eval++;
                                 if (memcmp(outs[i], exp, len[i]) || !out_canary_ok(i, len[i]))
-                                        viol("kasumi-f8-n-buffer", "output-differs", "N-buffer result differs from the reference (x = n*10+profile, y = buffer)", n * 10 + prof, i);
+                                        viol("kasumi-f8-n-buffer", "output-differs", "N-buffer result differs from the reference (x = n*1000+profile, y = buffer)", n * 1000 + prof, i);
                         }
                         if (n == 1) {
                                 outs[0] = outbuf(0, len[0]);
@@ -581,7 +597,7 @@ t_gcm_cfb_quic(void)
                 const void *srcs[NB], *ivs[NB], *aads[NB];
                 uint64_t lens[NB];
                 uint32_t l32[NB];
-                profile(4, n, l32, 1, 600);
+                profile_u(4, n, l32, 1, 600, 1);
                 for (int k = 0; k < 3; k += 2)
                         for (int d = 0; d < 2; d++) {
                                 static uint8_t aadbuf[NB][16];
